@@ -216,7 +216,14 @@ def wl_geometry(ctx, rng, case):
     i = 0
     target = 2 * est + 2 if est > 50 else 6 * est + 2  # small sizings: across six growths
     boundaries = {est - 1, est, est + 1, 2 * est, 2 * est + 1, 5 * est, 5 * est + 1, 6 * est}
+    reload_at = rng.randint(1, target - 1) if rng.random() < 0.5 else None  # half of the cases go on with a loaded copy from some point on
     while effective < target and i < 3 * target + 50:
+        if reload_at is not None and effective == reload_at:
+            f = P.ExpandingBloomFilter.frombytes(bytes(f), **bl.kw_hash(hf))
+            reload_at = None
+            case.op("reload", effective)
+            ctx.count("sweep_reloads")
+            ctx.maximum("sweep_reload_with_most_insertions_in_the_newest_filter", effective % est)
         key = f"geo-{case.index}-{i}"
         i += 1
         present = f.check(key)
@@ -261,7 +268,16 @@ def wl_est_sweep(ctx, rng, case):
     push_short = (case.index // 3) % 3 if case.index % 3 == 2 and est >= 2 else None
     model = [0]
     pushed = False
+    # half of the cases are carried on by a LOADED copy from some point on (anywhere in the first two filters' lives: also when the newest
+    # filter already holds hundreds of insertions)
+    reload_at = rng.randint(1, target - 1) if rng.random() < 0.5 else None
     while effective < target + (est if push_short is not None else 0) and i < 4 * target + 50:
+        if reload_at is not None and effective == reload_at:
+            f = P.ExpandingBloomFilter.frombytes(bytes(f))
+            reload_at = None
+            case.op("reload", effective)
+            ctx.count("sweep_reloads")
+            ctx.maximum("sweep_reload_with_most_insertions_in_the_newest_filter", model[-1])
         if push_short is not None and not pushed and len(model) == 2 and model[-1] == max(1, est - push_short):
             f.push()
             model.append(0)
